@@ -15,8 +15,53 @@ ILL = "ill-formed"       # the reference rejects the text/structure
 INCONS = "inconsistent"  # simultaneously firing effects conflict: outside C03's quantifier
 
 
+DECOY_DOMAIN = """(define (domain decoy)
+(:requirements :typing :negative-preconditions :universal-preconditions :conditional-effects)
+(:types t2 t3 - object t1 - t2)
+(:constants c - t2)
+(:predicates (r) (p ?a - t2) (q ?a - t2 ?b - t1) (m ?a - t3))
+(:functions (f) (g ?a - t2) (h ?a - t1 ?b - t2))
+(:action a :parameters (?x - t1 ?y - t2)
+ :precondition (and (p ?y) (forall (?z - t2) (or (p ?z) (q ?z ?x))))
+ :effect (and (q ?y ?x) (forall (?z - t1) (when (p ?z) (not (p ?z)))) (increase (g ?y) (h ?x ?y)))))
+"""
+DECOY_PROBLEM = """(define (problem decoyp) (:domain decoy)
+(:objects o1 - t1 o2 - t2 o3 - t3 o11 - t1)
+(:init (p o1) (p o2) (p c) (q o2 o1) (m o3) (= (f) 3) (= (g o2) 1) (= (h o1 o2) 2) (= (h o1 o1) 5))
+(:goal (and (p o1))))
+"""
+_decoy_done = False
+
+
+def use_decoy_once():
+    """Once per process, before the first program: a domain that uses the SAME type, predicate, function, constant and
+    object names with another type tree (t1 below t2), other signatures and other values is parsed, its sub-type
+    relation asked for every pair and its action grounded, tested and applied.  Nothing the library keeps from it may
+    decide anything about a later domain."""
+    global _decoy_done
+    if _decoy_done:
+        return
+    _decoy_done = True
+    try:
+        from .bridge import parse_problem
+        from pddl_plus_parser.multi_agent.common import create_initial_state
+        D = parse_domain(DECOY_DOMAIN)
+        P = parse_problem(DECOY_PROBLEM, D)
+        for a in D.types.values():
+            for b in D.types.values():
+                a.is_sub_type(b)
+        s0 = create_initial_state(P)
+        for args in (["o1", "o2"], ["o11", "o1"], ["o1", "c"]):
+            op = operator(D, "a", args, P.objects)
+            op.is_applicable(s0)
+            op.apply(s0, allow_inapplicable_actions=True)
+    except Exception:  # noqa: the decoy is only there to be remembered wrongly
+        pass
+
+
 class Prog:
     def __init__(self, case: dict, parse=True):
+        use_decoy_once()
         self.case = case
         self.text = case["domain"]
         self.objects: Dict[str, str] = dict(case["objects"])
